@@ -8,7 +8,7 @@ CONSTANTS
   Small = FALSE
   Avoid = TRUE
   SimK = 1
-  Acts = {"dset", "oset", "rebind", "ddel", "batch", "lset", "ldel", "slice", "lins", "inplace", "xslice"}
+  Acts = {"dset", "oset", "rebind", "ddel", "batch", "lset", "ldel", "slice", "lins", "inplace", "xslice", "ctor"}
 CONSTRAINT LevelBound
 INVARIANT Conforms
 INVARIANT AltsConform
